@@ -171,6 +171,26 @@ def main(repo='/repo', dest=None):
 
     sm, p_sm = parse(repo, 'chython/files/daylight/smarts.py')
     cx_src = compiled_pattern(module_assign(sm, 'cx_radicals', p_sm), p_sm, 'cx_radicals')
+    # ---- smarts(): the tests of every if in source order and the calls that build a QueryBond
+    smf = function(sm, 'smarts', p_sm)
+    def if_tests_deep(fn):
+        out = []
+        def visit(stmts):
+            for st in stmts:
+                if isinstance(st, ast.If):
+                    out.append(ast.unparse(st.test))
+                for fld in ('body', 'orelse', 'handlers', 'finalbody'):
+                    sub = getattr(st, fld, None)
+                    if isinstance(sub, list):
+                        visit([x for x in sub if isinstance(x, ast.stmt)] + [y for x in sub if isinstance(x, ast.ExceptHandler) for y in x.body])
+        visit(fn.body)
+        return out
+    smarts_tests = if_tests_deep(smf)
+    smarts_qb_calls = [ast.unparse(n) for n in ast.walk(smf) if isinstance(n, ast.Call) and getattr(n.func, 'id', None) == 'QueryBond']
+    smarts_raises = sorted({ast.unparse(n.exc.func) for n in ast.walk(smf) if isinstance(n, ast.Raise) and isinstance(n.exc, ast.Call)})
+    if not smarts_tests or not smarts_qb_calls:
+        raise TranslatorError(f'{p_sm}: smarts(): no if tests / no QueryBond call found')
+
     # ---- branch order of the comparison methods, of calc_labels and of from_symbol / from_atom: the tests of every `if` / `elif`
     #      in source order (pre-order), as normalised source text, and the right-hand sides assigned to `hybridization`
     def if_tests(fn):
@@ -267,6 +287,10 @@ def main(repo='/repo', dest=None):
         '(* MoleculeContainer.calc_labels: tests in source order and the values assigned to `hybridization` *)',
         f'Definition calc_labels_tests : list string := {lst(cl_tests, cs, per_line=3)}.',
         f'Definition calc_labels_hyb_values : list string := {lst(cl_hyb, cs)}.',
+        '(* smarts(): tests of every if in source order, the QueryBond(...) calls, the exception classes it raises itself *)',
+        f'Definition smarts_fn_tests : list string := {lst(smarts_tests, cs, per_line=1)}.',
+        f'Definition smarts_qb_calls : list string := {lst(smarts_qb_calls, cs)}.',
+        f'Definition smarts_raises : list string := {lst(smarts_raises, cs)}.',
         '(* QueryBond: allowed orders *)',
         f'Definition qbond_orders : list Z := {lst(orders, zraw)}.',
         ''])
